@@ -7,9 +7,15 @@
 
 """Util functions to handle random seeds."""
 
+import threading
 from contextlib import contextmanager
 
 import numpy as np
+
+# The legacy random generator of numpy is shared by all threads of the process.
+# Seeded blocks are serialized with this (re-entrant) lock so that runs executed
+# concurrently in a thread pool cannot draw from each other's random stream.
+_SEED_LOCK = threading.RLock()
 
 
 @contextmanager
@@ -24,12 +30,13 @@ def set_random_seed(seed: int | None = None):
         value = np.random.random()
     """
     if seed is not None:
-        previous_state = np.random.get_state()
-        try:
-            np.random.seed(seed)
-            yield
-        finally:
-            np.random.set_state(previous_state)
+        with _SEED_LOCK:
+            previous_state = np.random.get_state()
+            try:
+                np.random.seed(seed)
+                yield
+            finally:
+                np.random.set_state(previous_state)
     else:
         # Do nothing
         yield
